@@ -165,6 +165,19 @@ PROPS = {
                     "the OS CSPRNG itself; disjointness of draws is only tested (relation battery), not proved from the source"],
         "assumptions": ["PARTIAL: an information-flow theorem about an abstract generator plus a conservative syntactic source classification"],
     },
+    "C16": {
+        "modules": ["Properties.C16"],
+        "theorems": ["C16_lockset_sound"],
+        "obligation_codes": [3],
+        "race": True,
+        "describe_item": (lambda d, it: {0: "a location outside the committed list is written while serving and accessed outside its lock",
+                                         1: "the regenerated summary is implausibly small (translator broken?)", 2: "no summary"}.get(it, it)),
+        "trusted": ["the Go race detector (ThreadSanitizer happens-before) as the judge of executed schedules; the scheduler of this machine as the source of schedules",
+                    "the translator harness/cmd/harness/racesummary.go (go/parser, lexical lock regions, syntactic types; closures' parameters and values reached through interfaces are not tracked)",
+                    "Corr/C16.v known_unprotected: the committed list of locations that are unprotected for a stated reason (goroutine-confined, published through a channel, or an open finding)"],
+        "assumptions": ["PARTIAL: the theorem is the soundness of the lock discipline for ALL executions; that the code follows the discipline is a per-run syntactic obligation plus the race detector on the schedules that occurred",
+                        "the Go memory model's rule that Unlock synchronises-with a later Lock is taken as given"],
+    },
     "C03": {
         "modules": ["Properties.C03"],
         "theorems": ["C03_login_completes", "C03_lifetime"],
